@@ -67,7 +67,11 @@ WhyBalance(c) ==
                     c.obs.rows[n].c # "" => c.obs.rows[n].x[k] = RefCellNoClose(c, c.obs.rows[n].a, c.obs.rows[n].c, k)) THEN "declarative-sum"
      ELSE "ok"
 
-WhyCheck(c) == IF JudgeCheck(c) THEN "ok" ELSE "verdict-or-diagnostic"
+\* every report command proceeds exactly when check accepts (obs.reports: the verdicts of balance with its default
+\* window, balance cut off before the journal's last day, print, register-free commands that run the same checker)
+WhyCheck(c) == IF ~JudgeCheck(c) THEN "verdict-or-diagnostic"
+               ELSE IF \E n \in 1..Len(c.obs.reports) : c.obs.reports[n] # c.obs.accept THEN "report-command-verdict-differs-from-check"
+               ELSE "ok"
 
 \* ---- kind "delta": amounts outside the integer regime of the model (fractional quantities,
 \* arbitrary prices, 8-decimal truncation): only the statement of C01 itself is judged, on the
